@@ -378,3 +378,485 @@ Proof.
     + intros v. apply inv1_get; exact It.
     + rewrite H. reflexivity.
 Qed.
+
+(* ================= reflection of the boolean well-formedness checks ================= *)
+Lemma existsb_str_In k l : existsb (str_eqb k) l = true <-> In k l.
+Proof.
+  rewrite existsb_exists. split.
+  - intros [x [I E]]. apply str_eqb_eq in E. subst. exact I.
+  - intros I. exists k. split; auto. apply str_eqb_refl.
+Qed.
+
+Lemma nodupb_NoDup l : nodupb l = true -> NoDup l.
+Proof.
+  induction l as [|k r IH]; simpl; intros H; constructor.
+  - apply andb_true_iff in H as [H _]. intros I. apply existsb_str_In in I. rewrite I in H. discriminate.
+  - apply andb_true_iff in H as [_ H]. auto.
+Qed.
+
+Lemma wf_ignb_okflat j : wf_ignb j = true -> okflat j.
+Proof.
+  destruct j; simpl; try discriminate. intros H. apply andb_true_iff in H as [H1 H2].
+  exists kv. split; auto. split; [apply nodupb_NoDup; exact H1|].
+  intros k v I. rewrite forallb_forall in H2. apply (H2 (k, v) I).
+Qed.
+
+Lemma wf_ownb_inv2 d : wf_ownb d = true -> Inv2 d.
+Proof.
+  unfold wf_ownb. intros H. apply andb_true_iff in H as [H1 H2]. split; [apply nodupb_NoDup; exact H1|].
+  intros k v I. rewrite forallb_forall in H2. specialize (H2 (k, v) I). simpl in H2. unfold isIgn.
+  destruct (str_eqb k kIgnore); [apply wf_ignb_okflat; exact H2 | exact H2].
+Qed.
+
+Lemma wf_secb_oksec S j : wf_secb S j = true -> oksec j.
+Proof.
+  destruct j; simpl; try discriminate. intros H. apply andb_true_iff in H as [H1 H2].
+  exists kv. split; auto. split; [apply nodupb_NoDup; exact H1|].
+  intros k v I. rewrite forallb_forall in H2. specialize (H2 (k, v) I). unfold wf_itemb in H2. simpl in H2.
+  apply andb_true_iff in H2 as [_ H2]. unfold isIgn.
+  destruct (str_eqb k kIgnore); [apply wf_ignb_okflat; exact H2 | exact H2].
+Qed.
+
+Definition okfile (f : json) : Prop := exists d, f = JObj d /\ Inv1 d.
+
+Lemma wf_fileb_okfile f : wf_fileb f = true -> okfile f.
+Proof.
+  destruct f; simpl; try discriminate. intros H. apply andb_true_iff in H as [H1 H2].
+  exists kv. split; auto. split; [apply nodupb_NoDup; exact H1|].
+  intros k v I. rewrite forallb_forall in H2. specialize (H2 (k, v) I). simpl in H2.
+  apply andb_true_iff in H2 as [_ H2]. apply wf_secb_oksec in H2. exact H2.
+Qed.
+
+(* ================= layering the files ================= *)
+Lemma fold_res_app {A} (f : json -> A -> res json) acc l1 l2 :
+  fold_res f acc (l1 ++ l2) = (do a <- fold_res f acc l1; fold_res f a l2).
+Proof.
+  revert acc. induction l1 as [|x r IH]; intros acc; simpl; auto.
+  destruct (f acc x); simpl; auto.
+Qed.
+
+Lemma inv1_nil : Inv1 [].
+Proof. split; [constructor | intros k v []]. Qed.
+
+Lemma disk_char files :
+  Forall okfile files ->
+  exists d, load_disk false files = Ok (JObj d) /\ Inv1 d /\
+    (forall S o, o <> kIgnore -> getk S (dget o) d = files_get (fun f => file_get f S o) files) /\
+    (forall S p, get3 S p d = files_get (fun f => file_get_ign f S p) files).
+Proof.
+  unfold load_disk. induction files as [|f r IH]; intros W.
+  - exists []. split; [reflexivity|]. split; [apply inv1_nil|]. split; intros; reflexivity.
+  - inversion W as [|? ? Wf Wr]; subst. destruct (IH Wr) as [d0 [R0 [I0 [A0 B0]]]].
+    simpl rev. rewrite fold_res_app, R0. simpl.
+    destruct Wf as [fd [-> If]]. unfold layer_file.
+    destruct (level1 fd d0 If I0) as [r1 [R1 [I1 [A1 B1]]]].
+    destruct fd as [|x xs].
+    + simpl. exists d0. split; [reflexivity|]. split; [exact I0|]. split.
+      * intros S o N. rewrite A0; auto.
+      * intros S p. rewrite B0. reflexivity.
+    + change (truthy (JObj (x :: xs))) with true. cbv iota. rewrite R1. exists r1.
+      split; [reflexivity|]. split; [exact I1|]. split.
+      * intros S o N. rewrite A1, A0; auto.
+      * intros S p. rewrite B1, B0. reflexivity.
+Qed.
+
+(* ================= the per-class loop ================= *)
+(* getters on a section-level dictionary that obey the one-level law of recursive_update *)
+Definition L2law (G : dict -> option json) : Prop :=
+  G [] = None /\
+  forall n t r, Inv2 n -> Inv2 t -> rupd false (JObj n) (JObj t) = Ok (JObj r) -> G r = ov (G n) (G t).
+
+Lemma L2law_opt o : o <> kIgnore -> L2law (dget o).
+Proof.
+  intros N. split; auto. intros n t r In_ It R.
+  destruct (level2 n t In_ It) as [r' [R' [_ [H _]]]]. rewrite R in R'. inversion R'; subst. apply H; exact N.
+Qed.
+
+Lemma L2law_path p : L2law (getk kIgnore (dget p)).
+Proof.
+  split; auto. intros n t r In_ It R.
+  destruct (level2 n t In_ It) as [r' [R' [_ [_ H]]]]. rewrite R in R'. inversion R'; subst. apply H.
+Qed.
+
+Lemma class_step_char d cl c :
+  Inv1 d -> Inv2 (c_own cl) -> Inv2 c ->
+  exists r, class_step false d (JObj c) cl = Ok (JObj r) /\ Inv2 r /\
+    forall G, L2law G -> G r = ov (getk (c_name cl) G d) (ov (G (c_own cl)) (G c)).
+Proof.
+  intros Id Io Ic. unfold class_step, apply_defaults, apply_section.
+  destruct (level2 (c_own cl) c Io Ic) as [r1 [R1 [I1 _]]]. rewrite R1. simpl.
+  destruct (dget (c_name cl) d) as [sec|] eqn:E.
+  - destruct (inv1_get d _ _ Id E) as [sd [-> Is]].
+    destruct (level2 sd r1 Is I1) as [r2 [R2 [I2 _]]]. exists r2. split; [exact R2|]. split; [exact I2|].
+    intros G [G0 GL]. unfold getk. rewrite E. rewrite (GL sd r1 r2 Is I1 R2), (GL _ _ _ Io Ic R1). reflexivity.
+  - exists r1. split; auto. split; auto. intros G [G0 GL]. unfold getk. rewrite E.
+    rewrite (GL _ _ _ Io Ic R1). reflexivity.
+Qed.
+
+Fixpoint scanI (G : dict -> option json) (d : dict) (L : list cls) (s : option json) : option json :=
+  match L with
+  | [] => s
+  | c :: r => scanI G d r (ov (getk (c_name c) G d) (ov (G (c_own c)) s))
+  end.
+
+Lemma fold_interleaved d : Inv1 d -> forall L c,
+  Forall (fun cl => Inv2 (c_own cl)) L -> Inv2 c ->
+  exists r, fold_res (class_step false d) (JObj c) L = Ok (JObj r) /\ Inv2 r /\
+    forall G, L2law G -> G r = scanI G d L (G c).
+Proof.
+  intros Id. induction L as [|cl rest IH]; intros c W Ic.
+  - exists c. simpl. auto.
+  - inversion W; subst. destruct (class_step_char d cl c Id H1 Ic) as [r1 [R1 [I1 H]]].
+    destruct (IH r1 H2 I1) as [r [R [Ir Hr]]]. exists r. simpl. rewrite R1. simpl. split; auto. split; auto.
+    intros G GL. rewrite (Hr G GL), (H G GL). reflexivity.
+Qed.
+
+(* most-specific-first reading of the interleaved scan *)
+Fixpoint resolveI (G : dict -> option json) (look : pystr -> option json) (M : list cls) (s : option json) : option json :=
+  match M with
+  | [] => s
+  | c :: r =>
+      match look (c_name c) with
+      | Some v => Some v
+      | None => match G (c_own c) with
+                | Some JNull => None
+                | Some dflt => Some dflt
+                | None => resolveI G look r s
+                end
+      end
+  end.
+
+Lemma ov_nonnull v x : v <> JNull -> ov (Some v) x = Some v.
+Proof. destruct v; intros N; try reflexivity. contradiction. Qed.
+
+Lemma scanI_app G d L1 L2 s : scanI G d (L1 ++ L2) s = scanI G d L2 (scanI G d L1 s).
+Proof. revert s. induction L1 as [|c r IH]; intros s; simpl; auto. Qed.
+
+Lemma scanI_resolve G d L s :
+  (forall S, getk S G d <> Some JNull) ->
+  scanI G d L s = resolveI G (fun S => getk S G d) (rev L) s.
+Proof.
+  intros NN. induction L as [|c r IH] using rev_ind; simpl; auto.
+  rewrite scanI_app, rev_app_distr. simpl. rewrite IH.
+  destruct (getk (c_name c) G d) as [v|] eqn:E.
+  - apply ov_nonnull. intros ->. apply (NN (c_name c)). exact E.
+  - rewrite ov_none. destruct (G (c_own c)) as [[]|]; reflexivity.
+Qed.
+
+Fixpoint truncG (G : dict -> option json) (M : list cls) : list pystr :=
+  match M with
+  | [] => []
+  | c :: r => match G (c_own c) with Some _ => [c_name c] | None => c_name c :: truncG G r end
+  end.
+
+Fixpoint mdefG (G : dict -> option json) (M : list cls) : option json :=
+  match M with
+  | [] => None
+  | c :: r => match G (c_own c) with Some JNull => None | Some d => Some d | None => mdefG G r end
+  end.
+
+Lemma resolveI_first G look M :
+  resolveI G look M None = match first_set look (truncG G M) with Some v => Some v | None => mdefG G M end.
+Proof.
+  induction M as [|c r IH]; simpl; auto.
+  destruct (G (c_own c)) as [dflt|] eqn:E; simpl.
+  - destruct (look (c_name c)); auto.
+  - destruct (look (c_name c)); auto.
+Qed.
+
+Lemma first_set_filter (look : pystr -> option json) (inS : pystr -> bool) l :
+  (forall S, inS S = false -> look S = None) -> first_set look l = first_set look (filter inS l).
+Proof.
+  intros H. induction l as [|x r IH]; simpl; auto.
+  destruct (inS x) eqn:E; simpl.
+  - rewrite IH. reflexivity.
+  - rewrite (H x E). exact IH.
+Qed.
+
+Lemma list_str_eqb_eq a b : list_str_eqb a b = true -> a = b.
+Proof.
+  revert b. induction a as [|x xs IH]; intros [|y ys]; simpl; intros H; try discriminate; auto.
+  apply andb_true_iff in H as [H1 H2]. apply str_eqb_eq in H1. f_equal; auto.
+Qed.
+
+Lemma trunc_names_truncG o M : trunc_names o M = truncG (dget o) M.
+Proof. induction M as [|c r IH]; simpl; auto. destruct (dget o (c_own c)); auto. rewrite IH. reflexivity. Qed.
+
+Lemma mdefault_mdefG o M : mdefault o M = mdefG (dget o) M.
+Proof. induction M as [|c r IH]; simpl; auto. destruct (dget o (c_own c)) as [[]|]; auto. Qed.
+
+(* files_get never yields an explicit null *)
+Lemma ov_not_null n t : t <> Some JNull -> ov n t <> Some JNull.
+Proof. destruct n as [[]|]; simpl; intros H; try discriminate; auto. Qed.
+
+Lemma files_get_not_null get files : files_get get files <> Some JNull.
+Proof. induction files as [|f r IH]; simpl; [discriminate | apply ov_not_null; exact IH]. Qed.
+
+(* ================= assembling: build_config, key by key ================= *)
+Lemma layering_fact : layering_interleaved = true.
+Proof. reflexivity. Qed.
+
+Lemma tables_wf : tables_wfb = true.
+Proof. vm_compute. reflexivity. Qed.
+
+Lemma alookup_in {A} k (l : list (pystr * A)) : In k (map fst l) -> exists v, alookup k l = Some v.
+Proof.
+  induction l as [|[k0 v0] r IH]; simpl; intros H; [contradiction|].
+  destruct (str_eqb k k0) eqn:E; eauto.
+  destruct H as [H|H]; [subst; rewrite str_eqb_refl in E; discriminate | auto].
+Qed.
+
+Lemma known_ep_in ep : In ep ep_names -> known_ep ep = true.
+Proof. intros H. unfold known_ep. destruct (alookup_in ep entrypoints H) as [v ->]. reflexivity. Qed.
+
+Lemma classes_wf ep : In ep ep_names -> Forall (fun cl => Inv2 (c_own cl)) (classes_of ep).
+Proof.
+  intros H. unfold ep_names in H. apply in_map_iff in H as [e [E I]]. subst ep.
+  pose proof tables_wf as T. unfold tables_wfb in T. rewrite forallb_forall in T. specialize (T e I).
+  rewrite forallb_forall in T. apply Forall_forall. intros cl Icl. apply wf_ownb_inv2. apply T; exact Icl.
+Qed.
+
+Lemma wf_files_ok files : wf_filesb files = true -> Forall okfile files.
+Proof.
+  unfold wf_filesb. rewrite forallb_forall. intros H. apply Forall_forall. intros f I.
+  apply wf_fileb_okfile. apply H; exact I.
+Qed.
+
+Lemma resolveI_ext G look look' M s :
+  (forall S, look S = look' S) -> resolveI G look M s = resolveI G look' M s.
+Proof. intros E. induction M as [|c r IH]; simpl; auto. rewrite E, IH. reflexivity. Qed.
+
+Definition look_opt (files : list json) (o S : pystr) : option json := files_get (fun f => file_get f S o) files.
+Definition look_ign (files : list json) (p S : pystr) : option json := files_get (fun f => file_get_ign f S p) files.
+
+Lemma config_char ep files :
+  In ep ep_names -> wf_filesb files = true ->
+  exists c, build_config ep false files = Ok (JObj c) /\ Inv2 c /\
+    (forall o, o <> kIgnore -> dget o c = resolveI (dget o) (look_opt files o) (rev (classes_of ep)) None) /\
+    (forall p, getk kIgnore (dget p) c =
+               resolveI (getk kIgnore (dget p)) (look_ign files p) (rev (classes_of ep)) None).
+Proof.
+  intros Hep W. unfold build_config. rewrite (known_ep_in ep Hep), layering_fact. unfold build_config_gen.
+  destruct (disk_char files (wf_files_ok files W)) as [d [R [Id [A B]]]]. rewrite R. simpl.
+  destruct (fold_interleaved d Id (classes_of ep) [] (classes_wf ep Hep) inv2_nil) as [c [Rc [Ic H]]].
+  exists c. split; [exact Rc|]. split; [exact Ic|]. split.
+  - intros o N. rewrite (H (dget o) (L2law_opt o N)). simpl.
+    rewrite scanI_resolve.
+    + apply resolveI_ext. intros S. apply A; exact N.
+    + intros S. rewrite (A S o N). apply files_get_not_null.
+  - intros p. rewrite (H _ (L2law_path p)). simpl.
+    rewrite scanI_resolve.
+    + apply resolveI_ext. intros S. apply (B S p).
+    + intros S. fold (get3 S p d). rewrite (B S p). apply files_get_not_null.
+Qed.
+
+(* sections outside the ones that may set option o never mention it in a well-formed file *)
+Lemma file_sec_opt kv S s o v :
+  wf_fileb (JObj kv) = true -> dget S kv = Some (JObj s) -> dget o s = Some v -> inA o S = true.
+Proof.
+  simpl. intros W E1 E2. apply andb_true_iff in W as [_ W]. rewrite forallb_forall in W.
+  apply dget_In in E1. specialize (W _ E1). simpl in W. apply andb_true_iff in W as [Wa Ws].
+  apply andb_true_iff in Ws as [_ Ws]. rewrite forallb_forall in Ws. apply dget_In in E2.
+  specialize (Ws _ E2). unfold wf_itemb in Ws. simpl in Ws. apply andb_true_iff in Ws as [Wo _].
+  unfold inA. rewrite Wa, Wo. reflexivity.
+Qed.
+
+Lemma look_opt_outside files o S : wf_filesb files = true -> inA o S = false -> look_opt files o S = None.
+Proof.
+  unfold look_opt, wf_filesb. induction files as [|f r IH]; simpl; intros W N; auto.
+  apply andb_true_iff in W as [Wf Wr]. rewrite (IH Wr N).
+  assert (E : file_get f S o = None); [|rewrite E; reflexivity].
+  destruct f; simpl; auto. unfold get2. destruct (dget S kv) as [[]|] eqn:E1; auto.
+  destruct (dget o kv0) eqn:E2; auto. rewrite (file_sec_opt _ _ _ _ _ Wf E1 E2) in N. discriminate.
+Qed.
+
+Lemma look_ign_outside files p S : wf_filesb files = true -> inA kIgnore S = false -> look_ign files p S = None.
+Proof.
+  unfold look_ign, wf_filesb. induction files as [|f r IH]; simpl; intros W N; auto.
+  apply andb_true_iff in W as [Wf Wr]. rewrite (IH Wr N).
+  assert (E : file_get_ign f S p = None); [|rewrite E; reflexivity].
+  destruct f; simpl; auto. destruct (dget S kv) as [[]|] eqn:E1; auto.
+  unfold get2. destruct (dget kIgnore kv0) eqn:E2; auto.
+  rewrite (file_sec_opt _ _ _ _ _ Wf E1 E2) in N. discriminate.
+Qed.
+
+(* ================= the main theorems ================= *)
+Lemma effective_value_spec_lemma ep o files flags :
+  In ep ep_names -> o <> kIgnore -> conforms ep o = true -> wf_filesb files = true ->
+  effective ep files flags o = Ok (spec_effective ep files flags o).
+Proof.
+  intros Hep N C W. destruct (config_char ep files Hep W) as [c [R [_ [Ho _]]]].
+  unfold effective, spec_effective. rewrite R. simpl. f_equal.
+  destruct (dget o flags); auto.
+  rewrite (dget_ddel_other kIgnore o c N), (Ho o N), resolveI_first.
+  unfold conforms in C. rewrite layering_fact in C. simpl in C. apply list_str_eqb_eq in C.
+  rewrite trunc_names_truncG in C.
+  rewrite (first_set_filter (look_opt files o) (inA o) (truncG _ _)); [|intros S; apply look_opt_outside; exact W].
+  rewrite C.
+  rewrite <- (first_set_filter (look_opt files o) (inA o) (spec_sections ep)); [|intros S; apply look_opt_outside; exact W].
+  fold (look_opt files o). unfold look_opt at 1.
+  destruct (first_set (fun S => files_get (fun f => file_get f S o) files) (spec_sections ep)); auto.
+  unfold builtin_default. rewrite mdefault_mdefG. reflexivity.
+Qed.
+
+Lemma no_ignore_defaults G M :
+  Forall (fun c => G (c_own c) = None) M -> truncG G M = map c_name M /\ mdefG G M = None.
+Proof.
+  induction 1 as [|c r H _ [IH1 IH2]]; simpl; auto. rewrite H, IH1, IH2. auto.
+Qed.
+
+Lemma ignore_default_none p c : ignore_default_empty c = true -> getk kIgnore (dget p) (c_own c) = None.
+Proof.
+  unfold ignore_default_empty, getk. destruct (dget kIgnore (c_own c)) as [[]|]; try discriminate; auto.
+  destruct kv; try discriminate. reflexivity.
+Qed.
+
+Lemma ignore_merge_pathwise_lemma ep files p :
+  In ep ep_names -> conforms_ign ep = true -> wf_filesb files = true ->
+  exists ign, installed_ignore ep files = Ok (JObj ign) /\ dget p ign = spec_ignore_path ep files p.
+Proof.
+  intros Hep C W. destruct (config_char ep files Hep W) as [c [R [Ic [_ Hp]]]].
+  unfold installed_ignore. rewrite R. simpl.
+  apply andb_true_iff in C as [C1 C2]. apply list_str_eqb_eq in C2.
+  assert (D : Forall (fun cl => getk kIgnore (dget p) (c_own cl) = None) (rev (classes_of ep))).
+  { apply Forall_forall. intros cl I. apply in_rev in I. rewrite forallb_forall in C1.
+    apply ignore_default_none. apply C1; exact I. }
+  destruct (no_ignore_defaults _ _ D) as [T M].
+  specialize (Hp p). rewrite resolveI_first, T, M in Hp.
+  rewrite (first_set_filter (look_ign files p) (inA kIgnore) (map c_name _)) in Hp;
+    [|intros S; apply look_ign_outside; exact W].
+  rewrite C2 in Hp.
+  rewrite <- (first_set_filter (look_ign files p) (inA kIgnore) (spec_sections ep)) in Hp;
+    [|intros S; apply look_ign_outside; exact W].
+  assert (X : match first_set (look_ign files p) (spec_sections ep) with Some v => Some v | None => None end
+              = spec_ignore_path ep files p).
+  { unfold spec_ignore_path, look_ign. destruct (first_set _ _); reflexivity. }
+  rewrite X in Hp. clear X.
+  unfold getk in Hp. destruct (dget kIgnore c) as [i|] eqn:E.
+  - destruct (inv2_get_ign c i Ic E) as [id [-> _]]. exists id. split; auto.
+  - exists []. split; auto.
+Qed.
+
+Lemma first_set_ext_in (look look' : pystr -> option json) l :
+  (forall S, In S l -> look S = look' S) -> first_set look l = first_set look' l.
+Proof.
+  induction l as [|x r IH]; simpl; intros H; auto.
+  rewrite (H x (or_introl eq_refl)), IH; auto.
+Qed.
+
+Lemma files_get_none get files : (forall f, In f files -> get f = None) -> files_get get files = None.
+Proof.
+  induction files as [|f r IH]; simpl; intros H; auto.
+  rewrite (H f (or_introl eq_refl)), IH; auto.
+Qed.
+
+(* the working-directory file masks, key by key, whatever lower-priority files say *)
+Lemma cwd_file_wins_lemma ep o cwd rest flags :
+  In ep ep_names -> o <> kIgnore -> conforms ep o = true -> wf_filesb (cwd :: rest) = true ->
+  (forall S f, In S (spec_sections ep) -> In f rest -> file_get f S o <> None -> file_get cwd S o <> None) ->
+  effective ep (cwd :: rest) flags o = effective ep [cwd] flags o.
+Proof.
+  intros Hep N C W H.
+  assert (W1 : wf_filesb [cwd] = true).
+  { unfold wf_filesb in *. simpl in *. apply andb_true_iff in W as [W _]. rewrite W. reflexivity. }
+  rewrite (effective_value_spec_lemma ep o _ flags Hep N C W), (effective_value_spec_lemma ep o _ flags Hep N C W1).
+  f_equal. unfold spec_effective. destruct (dget o flags); auto.
+  rewrite (first_set_ext_in _ (fun S => files_get (fun f => file_get f S o) [cwd]) (spec_sections ep)); auto.
+  intros S I. simpl. destruct (file_get cwd S o) as [v|] eqn:E.
+  - destruct v; reflexivity.
+  - rewrite !ov_none. apply files_get_none. intros f If.
+    destruct (file_get f S o) eqn:E2; auto. exfalso. apply (H S f I If); [rewrite E2; discriminate | exact E].
+Qed.
+
+(* ================= finite facts about the generated tables ================= *)
+Definition kLog : pystr := of_ascii "log_level".
+Definition kPort : pystr := of_ascii "port".
+Definition kServer : pystr := of_ascii "server".
+Definition kGlobal : pystr := of_ascii "Global".
+
+Definition is_exception (ep o : pystr) : bool := str_eqb o kLog || (str_eqb ep kServer && str_eqb o kPort).
+
+Lemma conforms_table :
+  forallb (fun ep => forallb (fun o => conforms ep o || is_exception ep o) (options ep)) ep_names = true.
+Proof. vm_compute. reflexivity. Qed.
+
+Lemma conforms_exceptions ep o :
+  In ep ep_names -> In o (options ep) -> o <> kLog -> ~ (ep = kServer /\ o = kPort) -> conforms ep o = true.
+Proof.
+  intros Hep Ho N1 N2. pose proof conforms_table as T. rewrite forallb_forall in T. specialize (T ep Hep).
+  rewrite forallb_forall in T. specialize (T o Ho). apply orb_true_iff in T as [T|T]; auto.
+  unfold is_exception in T. apply orb_true_iff in T as [T|T].
+  - apply str_eqb_eq in T. contradiction.
+  - apply andb_true_iff in T as [T1 T2]. apply str_eqb_eq in T1, T2. exfalso. apply N2; auto.
+Qed.
+
+Lemma conforms_ign_all ep : In ep ep_names -> conforms_ign ep = true.
+Proof.
+  intros Hep. assert (T : forallb conforms_ign ep_names = true) by (vm_compute; reflexivity).
+  rewrite forallb_forall in T. apply T; exact Hep.
+Qed.
+
+(* every documented (section, entry point) pair: is the section among the classes build_config layers? *)
+Definition doc_pairs : list (pystr * pystr) := flat_map (fun p => map (fun e => (fst p, e)) (snd p)) documented.
+Definition participates (S cn : pystr) : bool :=
+  existsb (fun e => str_eqb (snd e) cn &&
+                    existsb (str_eqb S) (match alookup (fst e) ep_mro with Some l => l | None => [] end)) entrypoints.
+
+Lemma documented_sections_participate_lemma S cn :
+  In (S, cn) doc_pairs -> S <> kGlobal -> participates S cn = true.
+Proof.
+  intros I N.
+  assert (T : forallb (fun p => participates (fst p) (snd p) || str_eqb (fst p) kGlobal) doc_pairs = true)
+    by (vm_compute; reflexivity).
+  rewrite forallb_forall in T. specialize (T _ I). simpl in T. apply orb_true_iff in T as [T|T]; auto.
+  apply str_eqb_eq in T. contradiction.
+Qed.
+
+Lemma global_never_participates cn : participates kGlobal cn = false.
+Proof.
+  unfold participates. apply not_true_is_false. intros H. apply existsb_exists in H as [e [I H]].
+  apply andb_true_iff in H as [_ H].
+  assert (T : forallb (fun e => negb (existsb (str_eqb kGlobal) (match alookup (fst e) ep_mro with Some l => l | None => [] end))) entrypoints = true)
+    by (vm_compute; reflexivity).
+  rewrite forallb_forall in T. specialize (T e I). rewrite H in T. discriminate.
+Qed.
+
+Lemma documented_sections_known :
+  forallb (fun p => existsb (str_eqb (fst p)) specificity) documented = true.
+Proof. vm_compute. reflexivity. Qed.
+
+(* the trait default and the parser's own default never disagree *)
+Lemma defaults_agree :
+  forallb (fun ep => forallb (fun o =>
+     match mdefault o (rev (classes_of ep)), alookup ep parser_defaults with
+     | Some d, Some pd => match dget o pd with Some x => json_eqb d x | None => true end
+     | _, _ => true
+     end) (options ep)) ep_names = true.
+Proof. vm_compute. reflexivity. Qed.
+
+(* ================= non-vacuity ================= *)
+Definition ex_files : list json :=
+  [ JObj [(of_ascii "NbMerge", JObj [(of_ascii "output_strategy", JStr (of_ascii "use-remote"))]);
+          (of_ascii "Merge", JObj [(kIgnore, JObj [(of_ascii "/cells/*/outputs", JBool true)])])];
+    JObj [(of_ascii "NbMerge", JObj [(of_ascii "merge_strategy", JStr (of_ascii "use-base"));
+                                     (of_ascii "output_strategy", JStr (of_ascii "use-base"))])];
+    JObj [(of_ascii "Merge", JObj [(of_ascii "ignore_transients", JBool false); (of_ascii "merge_strategy", JNull);
+                                   (kIgnore, JObj [(of_ascii "/metadata", JArr [JStr (of_ascii "foo")]);
+                                                   (of_ascii "/cells/*/outputs", JBool false)])])] ].
+
+Example effective_value_spec_nonvacuous :
+  In (of_ascii "nbmerge") ep_names /\ wf_filesb ex_files = true /\
+  conforms (of_ascii "nbmerge") (of_ascii "merge_strategy") = true /\
+  conforms (of_ascii "nbmerge") (of_ascii "output_strategy") = true /\
+  effective (of_ascii "nbmerge") ex_files [] (of_ascii "merge_strategy") = Ok (JStr (of_ascii "use-base")) /\
+  effective (of_ascii "nbmerge") ex_files [] (of_ascii "output_strategy") = Ok (JStr (of_ascii "use-remote")) /\
+  effective (of_ascii "nbmerge") ex_files [] (of_ascii "ignore_transients") = Ok (JBool false) /\
+  effective (of_ascii "nbmerge") ex_files [(of_ascii "output_strategy", JStr (of_ascii "remove"))] (of_ascii "output_strategy")
+    = Ok (JStr (of_ascii "remove")).
+Proof. vm_compute. repeat split; auto 20. Qed.
+
+Example ignore_merge_nonvacuous :
+  conforms_ign (of_ascii "nbmerge") = true /\
+  canon_res (installed_ignore (of_ascii "nbmerge") ex_files)
+  = Ok (JObj [(of_ascii "/cells/*/outputs", JBool true); (of_ascii "/metadata", JArr [JStr (of_ascii "foo")])]).
+Proof. vm_compute. split; reflexivity. Qed.
